@@ -858,6 +858,8 @@ class Messenger(Connection):
         :raise TerminateError: If there is some failure to negotiate.
         '''
         self._logger.debug('Session negotiation')
+        # in force also when the negotiation fails and the session only terminates
+        self._idle_time = self._config.idle_time
 
         peer_addr_str = self.get_app_socket().getpeername()[0]
         if self._as_passive:
